@@ -15,17 +15,21 @@ namespace C04
 def expectedStateWrites : List (String × String × String) := [
   ("Close", "db.syncState", "syncState{}"),
   ("syncLocked", "exec.state.syncedSinceCheckpoint", "true"),
+  ("verifyAndSyncWithExecutor", "exec.state.checkpointUnresolved", "false"),
   ("applySyncResult", "state.lastSyncedWALOffset", "result.newWALSize"),
   ("applySyncResult", "state.syncedToWALEnd", "result.syncedToWALEnd"),
   ("newSyncExecutor", "db.syncState", "syncState{}"),
   ("applySyncExecutor", "db.syncState", "exec.state"),
   ("applySyncResult", "exec.state.lastSyncedWALOffset", "result.newWALSize"),
   ("applySyncResult", "exec.state.syncedToWALEnd", "result.syncedToWALEnd"),
+  ("checkpoint", "state.checkpointUnresolved", "state.checkpointUnresolved || exec.state.checkpointUnresolved"),
   ("checkpoint", "*state", "exec.state"),
+  ("checkpointWithExecutor", "exec.state.checkpointUnresolved", "true"),
   ("checkpointWithExecutor", "exec.state.syncedSinceCheckpoint", "false"),
   ("checkpointWithExecutor", "exec.state.syncedSinceCheckpoint", "false"),
   ("checkpointWithExecutor", "exec.state.syncedSinceCheckpoint", "false"),
-  ("checkpointWithExecutor", "exec.state.syncedSinceCheckpoint", "false")]
+  ("checkpointWithExecutor", "exec.state.syncedSinceCheckpoint", "false")
+]
 
 theorem gen_state_writes_eq : Gen.StateWrites.writes = expectedStateWrites := by decide
 
@@ -39,6 +43,13 @@ theorem gen_offset_written_only_from_sync_result :
 theorem gen_whole_state_writes :
     ∀ w ∈ Gen.StateWrites.writes, (w.2.1 = "db.syncState" ∨ w.2.1 = "*state") →
       ((w.1 = "Close" ∨ w.1 = "newSyncExecutor") ∧ w.2.2 = "syncState{}") ∨ w.2.2 = "exec.state" := by decide
+
+/-- `checkpointUnresolved` is raised only by `checkpointWithExecutor` (error exit after a non-PASSIVE
+    checkpoint ran), carried back by `checkpoint`, and lowered only by `verifyAndSyncWithExecutor`
+    (after a snapshot sync). -/
+theorem gen_unresolved_writes :
+    ∀ w ∈ Gen.StateWrites.writes, (w.2.1 = "exec.state.checkpointUnresolved" ∨ w.2.1 = "state.checkpointUnresolved") →
+      (w.1 = "checkpointWithExecutor" ∧ w.2.2 = "true") ∨ (w.1 = "verifyAndSyncWithExecutor" ∧ w.2.2 = "false") ∨ w.1 = "checkpoint" := by decide
 
 /-! ### What the inventory means: `fresh` is conservative
 
